@@ -108,7 +108,8 @@ def run(ctx):
                 "pristine child process. distinct_nontrivial = distinct (history, kind, operation) with a non-empty history." % (steps, maxlen))
     other = xr.DataArray(np.arange(30.0).reshape(5, 6) % 7, coords={"freq": np.linspace(0.05, 0.25, 5), "dir": np.arange(0.0, 360.0, 60.0)},
                          dims=("freq", "dir"), name="efth")
-    sample = "/repo/tests/sample_files/swanfile.spec"
+    from harness.core import REPO
+    sample = REPO + "/tests/sample_files/swanfile.spec"
     for acts, ver in hist:
         for kind_ in ("ds", "da"):
             obj = S.make(1, 1)
